@@ -23,7 +23,7 @@ func init() {
 		Explanation: "Decided (necessary conditions; breaking one makes some valid program diverge, crash or be rejected by one engine only): (R01.1) every opcode the validator accepts has an arm in the interpreter's lowering and in the compiler frontend; (R01.2) every interpreter operation kind has an arm in the execution loop, except six kinds that rely on the pc-advancing default for a stated reason; " +
 			"(R01.3) every SSA opcode that can be emitted has side-effect and return-type table entries and an arm in the amd64 and arm64 lowering; (R01.5) the interpreter keeps 32-bit values zero-extended on its 64-bit stack: in arms tagged with a 32-bit type every pushed value is a conversion of an unsigned ≤32-bit value or a small constant (kinds whose tag names the source type are listed); " +
 			"(R01.6) every indirect call emitted by the frontend is preceded on all paths by the store of the caller's module context (helper summaries see through wrappers); (R01.7) the amd64 fusion of `and` into TEST for a comparison with zero only matches the zero as the right-hand operand (genuine defect found and fixed). " +
-			"(R01.8) both engines check and access exactly the number of bytes the instruction's mnemonic dictates (same analysis as C02 R02.1/R02.6). (R01.9) both engines test alignment and bounds of an atomic access in the same order – they do not (compiler: bounds first, interpreter: alignment first), demonstrated and recorded as a known finding; (R01.10) memory-writing, atomic and control-transfer SSA opcodes are classified strict and trapping ones keep their trap class; (R01.11) the bounds-check elision cache is merged conservatively at joins (C02 R02.7). The 32-bit slot normalisation at the Go boundary is decided under C08 (R08.9). NOT decided: semantic equivalence of the two pipelines, register allocation, encodings, the arm64 flag fusion (see DESIGN.md: suspected but not demonstrable without arm64 hardware).",
+			"(R01.8) both engines check and access exactly the number of bytes the instruction's mnemonic dictates (same analysis as C02 R02.1/R02.6). (R01.9) both engines test alignment and bounds of an atomic access in the same order – they do not (compiler: bounds first, interpreter: alignment first), demonstrated and recorded as a known finding; (R01.10) memory-writing, atomic and control-transfer SSA opcodes are classified strict and trapping ones keep their trap class; (R01.11) the bounds-check elision cache is merged conservatively at joins (C02 R02.7). The 32-bit slot normalisation at the Go boundary is decided under C08 (R08.9). (R01.12) the register allocator stores a virtual register at the point where it takes its real register to make room, so values modified in place by two-address instructions and temporaries defined twice reach their spill slot (genuine defects found and fixed: copysign, bitselect, f64x2.convert_low_i32x4_u); (R01.13) what that store does not cover – the register of an SSA value, which may lose its real register at a call or block boundary – is never modified in place by an amd64 lowering; (R01.14) amd64 instructions that keep part of their destination declare it as used (genuine defects found and fixed: the xmm conditional move used by select, MOVSD in f64x2.replace_lane). NOT decided: semantic equivalence of the two pipelines, register allocation, encodings, the arm64 flag fusion (see DESIGN.md: suspected but not demonstrable without arm64 hardware).",
 		Rules: []core.Rule{
 			{ID: "R01.1", Template: "T-EXHAUST", Text: "validator-accepted opcodes ⊆ arms of both engines' dispatchers", Min: 8},
 			{ID: "R01.2", Template: "T-EXHAUST", Text: "every operation kind has an execution arm or a listed reason to rely on the default", Min: 150},
@@ -34,10 +34,19 @@ func init() {
 			{ID: "R01.9", Template: "T-SIBLING", Text: "both engines test alignment and bounds of an atomic access in the same order (known finding: they do not)", Min: 1},
 			{ID: "R01.10", Template: "T-SIBLING", Text: "memory-writing, atomic and control SSA opcodes are classified strict, trapping ones keep their trap", Min: 25},
 			{ID: "R01.11", Template: "T-MUSTPASS", Text: "the bounds-check elision cache is merged conservatively at joins (same analysis as C02 R02.7)", Min: 2},
+			{ID: "R01.12", Template: "T-MUSTPASS", Text: "the register allocator stores a virtual register at the point where it takes its real register (genuine defects found and fixed: in-place modifications and second definitions were lost)", Min: 2},
+			{ID: "R01.13", Template: "T-TYPESTATE", Text: "amd64 lowerings modify in place only temporaries of the same lowering, never the register of an SSA value", Min: 1},
+			{ID: "R01.14", Template: "T-REPR", Text: "amd64 instructions that keep part of their destination declare it as used (genuine defects found and fixed: xmmCMov, MOVSD register form)", Min: 1},
+			{ID: "R01.15", Template: "T-SIBLING", Text: "memory.atomic.wait tests the memory's sharedness after the address checks on both engines (genuine defect found and fixed)", Min: 1},
 			{ID: "R01.8", Template: "T-WIDTH", Text: "both engines check and access the number of bytes the instruction's mnemonic dictates", Min: 200},
 		},
 		Run: runC01,
 		Controls: []core.Control{
+			{Name: "wait-sharedness-tested-first", File: "internal/engine/interpreter/interpreter.go", Old: "\t\t\toffset := ce.popMemoryOffset(op)\n\n\t\t\tswitch unsignedType(op.B1) {\n\t\t\tcase unsignedTypeI32:\n\t\t\t\tif offset%4 != 0 {", New: "\t\t\toffset := ce.popMemoryOffset(op)\n\t\t\tif !memoryInst.Shared {\n\t\t\t\tpanic(wasmruntime.ErrRuntimeExpectedSharedMemory)\n\t\t\t}\n\n\t\t\tswitch unsignedType(op.B1) {\n\t\t\tcase unsignedTypeI32:\n\t\t\t\tif offset%4 != 0 {", Rule: "R01.15", Substr: "wait"},
+			{Name: "eviction-without-store", File: "internal/engine/wazevo/backend/regalloc/regalloc.go", Old: "\t\t\t\t\ta.storeEvicted(f, instr)\n\t\t\t\t\tvs.recordReload(f, blk)", New: "\t\t\t\t\tvs.recordReload(f, blk)", Rule: "R01.12", Substr: "evicted"},
+			{Name: "bitselect-finishes-in-result-register", File: "internal/engine/wazevo/backend/isa/amd64/machine.go", Old: "\tpor.asXmmRmR(sseOpcodePor, newOperandReg(yAndNotC), tmpX)\n\tm.insert(por)\n\n\tm.copyTo(tmpX, rd)", New: "\tm.copyTo(tmpX, rd)\n\tpor.asXmmRmR(sseOpcodePor, newOperandReg(yAndNotC), rd)\n\tm.insert(por)", Rule: "R01.13", Substr: "lowerVbitselect"},
+			{Name: "xmmcmov-declared-pure-definition", File: "internal/engine/wazevo/backend/isa/amd64/instr.go", Old: "\txmmCMov:                defKindNone,", New: "\txmmCMov:                defKindOp2,", Rule: "R01.14", Substr: "xmmCMov", Old2: "\txmmCMov:                useKindOp1Op2Reg,", New2: "\txmmCMov:                useKindOp1,"},
+			{Name: "replace-lane-movsd-as-definition", File: "internal/engine/wazevo/backend/isa/amd64/machine_vec.go", Old: "m.insert(m.allocateInstr().asXmmRmR(sseOpcodeMovsd, yy, tmpDst))", New: "m.insert(m.allocateInstr().asXmmUnaryRmR(sseOpcodeMovsd, yy, tmpDst))", Rule: "R01.14", Substr: "lowerInsertLane"},
 			{Name: "atomic-rmw-not-strict", File: "internal/engine/wazevo/ssa/instructions.go", Old: "\tOpcodeAtomicRmw:                   sideEffectStrict,", New: "\tOpcodeAtomicRmw:                   sideEffectTraps,", Rule: "R01.10", Substr: "OpcodeAtomicRmw"},
 			{Name: "sdiv-loses-its-trap", File: "internal/engine/wazevo/ssa/instructions.go", Old: "\tOpcodeSdiv:                        sideEffectTraps,", New: "\tOpcodeSdiv:                        sideEffectNone,", Rule: "R01.10", Substr: "OpcodeSdiv"},
 			{Name: "merge-keeps-larger-bound", File: "internal/engine/wazevo/frontend/frontend.go", Old: "\t\t\t\t\tif cb.bound < minBound {\n\t\t\t\t\t\tminBound = cb.bound\n\t\t\t\t\t}", New: "\t\t\t\t\tif cb.bound > minBound || minBound == math.MaxUint64 {\n\t\t\t\t\t\tminBound = cb.bound\n\t\t\t\t\t}", Rule: "R01.11", Substr: "minimum"},
@@ -69,6 +78,8 @@ func runC01(c *core.Ctx) {
 	checkAtomicCheckOrder(c)
 	checkSideEffectClasses(c)
 	checkElisionMerge(c, "R01.11")
+	checkAmd64LoweringDiscipline(c)
+	checkWaitSharednessOrder(c)
 }
 
 // ---------------------------------------------------------------------------------------------------------
